@@ -1,5 +1,65 @@
-(* C15 placeholder, replaced below *)
-From JV Require Import Bytes Tables TextTok Writer.
+(* C15 — Well-formed sequences of writer calls parse back to exactly what was written.
+   Statements only; every proof is [exact lemma].  The text parser is modelled by another family
+   (C01/C06); the clauses "the output parses to the described structure", "integers read back
+   exactly", "floats within 2 ulp" are evaluated by oracles on the implementation (props/C15.py).
+   Proved here, over the model the correspondence check runs (Writer.v): *)
+From JV Require Import Bytes Tables TextTok Date Writer.
 From JV.proofs Require Import WriterProofs.
-Theorem C15_ws_next_table : forall s, ws_next s = Ok (ws_next_spec s).
+Open Scope N_scope.
+
+(* "Misordered calls ... never a panic": EVERY call history (any length, any order, any payload bytes),
+   every indent configuration, every float-printing oracle: the run completes -- no Panic (table
+   index, discriminant), no OOB, no OutOfFuel.  An end without a start is the only Err. *)
+Theorem C15_no_panic : forall (fdisp : bool -> N -> option N -> bytes) (c : cfg) (calls : list call),
+  exists r, run fdisp c calls = Ok r.
+Proof. exact run_total. Qed.
+Print Assumptions C15_no_panic.
+
+(* "depth() ... always reflect the calls made so far": after every call of every history, depth() and
+   whether the call returned Err are exactly the counter [depth_log] over the call prefix
+   (open +1; close -1, or Err at 0 leaving the writer unchanged; everything else, incl. write_rgb, 0). *)
+Theorem C15_depth_is_counter : forall (fdisp : bool -> N -> option N -> bytes) c calls out log,
+  run fdisp c calls = Ok (out, log) ->
+  map (fun ew => (fst ew, length (w_depth (snd ew)))) log = depth_log 0 calls.
+Proof. intros fdisp c calls out log H. exact (run_depth_log fdisp c calls wr_init out log H). Qed.
+Print Assumptions C15_depth_is_counter.
+
+(* the state queries are exactly these sets of states (tables regenerated from writer.rs), and the
+   transition table is exactly this map: breaks when writer.rs changes them *)
+Theorem C15_state_queries : forall w,
+  q_expecting_key w = (match w_state w with WKey | WFirstKey => true | _ => false end) /\
+  q_at_unknown_start w = (match w_state w with WFirstUnknown => true | _ => false end) /\
+  q_at_array_value w = (match w_state w with WArrayValue => true | _ => false end) /\
+  q_depth w = N.of_nat (length (w_depth w)).
+Proof.
+  intros w. repeat split;
+    [apply q_expecting_key_spec | apply q_at_unknown_start_spec | apply q_at_array_value_spec].
+Qed.
+Print Assumptions C15_state_queries.
+
+Theorem C15_transition_table : forall s, ws_next s = Ok (ws_next_spec s).
 Proof. exact ws_next_table. Qed.
+Print Assumptions C15_transition_table.
+
+(* "quoted payloads survive escaping": for EVERY payload (all byte values), reading the escaped form
+   back with the reference rule (backslash makes the next byte literal) gives the payload minus the
+   documented single trailing newline, and the escaped form contains no bare quote and no dangling
+   backslash, so `"` ++ escape p ++ `"` is one quoted token. *)
+Theorem C15_escape_roundtrip : forall p : bytes,
+  unescape (escape p) = strip_one_trailing_nl p /\ no_bare_quote (escape p) = true.
+Proof. exact escape_roundtrip. Qed.
+Print Assumptions C15_escape_roundtrip.
+
+(* every scalar-like call (unquoted, ints, floats, bool, date, fmt) is: separator chosen by the state,
+   the payload bytes verbatim, transition by the table *)
+Theorem C15_scalar_call_shape : forall c w data,
+  write_raw c w data = WOk (epi_state (pre_state w)) (pre_bytes c w ++ data ++ []) /\
+  write_quoted c w data = WOk (epi_state (pre_state w)) (pre_bytes c w ++ ([QUOTE] ++ escape data ++ [QUOTE]) ++ []).
+Proof. intros. split; [apply write_raw_shape | apply write_quoted_shape]. Qed.
+Print Assumptions C15_scalar_call_shape.
+
+(* non-vacuity: the counter on a concrete misordered history; a payload the round trip is about *)
+Example C15_nonvacuous :
+  depth_log 0 [CEnd; CStart; CRgb 1 2 3 None; CEnd; CEnd] = [(true, 0); (false, 1); (false, 1); (false, 0); (true, 0)]%nat
+  /\ unescape (escape [34; 92; 10]) = [34; 92].
+Proof. split; reflexivity. Qed.
